@@ -224,6 +224,7 @@ func runC03(c *Ctx) {
 			}
 		}, "c03mtm", bc.F.Val, bc.J.Wire(), itoa(start-1), strings.Join(ds, ","))
 		if !bc.F.NoClose {
+			c03ClosingMonitor(c, bt, bc, in, dates, ds, rows, start)
 			continue
 		}
 		// ---- monitors for --close=false: (1) theorem C03_command_flow_cell_noclose_partial: the row of an expense/equity account
@@ -336,5 +337,265 @@ func runC03(c *Ctx) {
 				}
 			}
 		}, "c03flow", bc.F.Val, bc.J.Wire(), itoa(start-1), strings.Join(ds, ","))
+	}
+	c03Modes(c, bt)
+}
+
+// c03ClosingMonitor: theorem C03_command_flow_cell with --close: in a cumulative report every column of an
+// income/expense/equity row (other than Equity:Equity) shows the flows of its OWN period: -(flow(b) - sum over the A/L
+// accounts a mirrored on b (Income:<path of a>) of ((shown(a, D_k) - shown(a, D_{k-1})) - flow(a))), all flows over
+// (D_{k-1}, D_k] at booking-day prices (Spec.flowAt, evaluated by the driver). Exact. With --last the first column is
+// excluded (its period does not start at the window start).
+func c03ClosingMonitor(c *Ctx, bt *Batch, bc *balCase, in any, dates, ds []string, rows []reportRow, start int) {
+	shownAll := map[string][]string{}
+	for _, r := range rows {
+		shownAll[r.Path] = r.Values
+	}
+	nd := len(dates)
+	eves := make([]string, nd)
+	for k := range eves {
+		if k == 0 {
+			eves[k] = itoa(start - 1)
+		} else {
+			eves[k] = ds[k-1]
+		}
+	}
+	bt.Add(func(ans string) {
+		if ans == "bad-op" || ans == "" {
+			return
+		}
+		flow := map[string][]*big.Rat{}
+		for _, item := range strings.Fields(ans) {
+			parts := strings.Split(item, "|")
+			if len(parts) != nd+1 {
+				continue
+			}
+			fl := make([]*big.Rat, nd)
+			for k, cell := range parts[1:] {
+				if cell != "none" {
+					fl[k], _ = ratOf(cell)
+				}
+			}
+			flow[parts[0]] = fl
+		}
+		cellOf := func(acc string, k int) *big.Rat {
+			if k < 0 {
+				return new(big.Rat)
+			}
+			vals, has := shownAll[acc]
+			if !has || k >= len(vals) {
+				return new(big.Rat)
+			}
+			r, ok := ratOf(vals[k])
+			if !ok {
+				return nil
+			}
+			return r
+		}
+		// adjustments of the A/L accounts inside each period, by mirror account
+		adj := map[string][]*big.Rat{}
+		for acc, fl := range flow {
+			seg := strings.SplitN(acc, ":", 2)
+			if seg[0] != "Assets" && seg[0] != "Liabilities" {
+				continue
+			}
+			g := "Income"
+			if len(seg) == 2 {
+				g += ":" + seg[1]
+			}
+			if adj[g] == nil {
+				adj[g] = make([]*big.Rat, nd)
+				for k := range adj[g] {
+					adj[g][k] = new(big.Rat)
+				}
+			}
+			for k := 0; k < nd; k++ {
+				s1, s0 := cellOf(acc, k), cellOf(acc, k-1)
+				if s1 == nil || s0 == nil || fl[k] == nil || adj[g][k] == nil {
+					adj[g][k] = nil
+					continue
+				}
+				d := new(big.Rat).Sub(s1, s0)
+				adj[g][k].Add(adj[g][k], d.Sub(d, fl[k]))
+			}
+		}
+		accs := map[string]bool{}
+		for acc := range flow {
+			accs[acc] = true
+		}
+		for g := range adj {
+			accs[g] = true
+		}
+		for acc := range accs {
+			seg := strings.SplitN(acc, ":", 2)
+			if seg[0] == "Assets" || seg[0] == "Liabilities" || acc == "Equity:Equity" {
+				continue
+			}
+			for k := 0; k < nd; k++ {
+				if k == 0 && bc.F.Last > 0 {
+					continue
+				}
+				s := cellOf(acc, k)
+				fl := new(big.Rat)
+				if f, ok := flow[acc]; ok {
+					fl = f[k]
+				}
+				a := new(big.Rat)
+				if x, ok := adj[acc]; ok {
+					a = x[k]
+				}
+				if s == nil || fl == nil || a == nil {
+					continue
+				}
+				want := new(big.Rat).Neg(new(big.Rat).Sub(fl, a))
+				pred := "flow_of_own_period_with_closing"
+				if seg[0] == "Income" {
+					pred = "gain_on_mirror_account_with_closing"
+				}
+				if want.Sign() != 0 {
+					c.Tag("closing-" + strings.ToLower(seg[0]) + "-nonzero")
+				}
+				c.Monitor("valued", bc.Idx, pred, in, s.Cmp(want) == 0,
+					fmt.Sprintf("account %s column %s: shown %s, expected -(flow %s - adjustments %s) over (%s, %s]", acc, dates[k], s.FloatString(10), fl.FloatString(10), a.FloatString(10), eves[k], ds[k]))
+			}
+		}
+	}, "c03flowp", bc.F.Val, bc.J.Wire(), strings.Join(eves, ","), strings.Join(ds, ","))
+}
+
+// c03Modes: stream "modes": valued reports WITH -m level[:suffix][,regex], --remap, --account, -s and --diff.
+// Correspondence (byte for byte with the model) and the monitors of theorems C03_command_cell_diff,
+// C03_command_cell_mapped, C03_command_cell_show(_other): every asset/liability ROW of the real report against the exact
+// value the driver computes from Spec (Spec.mtmOver over the journal's accounts mapped onto the row, at the period end
+// minus at the eve of the column; per commodity line Spec.mtmPosOver) with the PROVED bound (Spec.stepBoundOver /
+// Spec.stepCountOver units of 1e-8, no slack).
+func c03Modes(c *Ctx, bt *Batch) {
+	n := c.N(600, 20000)
+	cases := genBalCasesWith(c, "modes", n, func(r *RNG) JGenOpts {
+		return JGenOpts{MaxAccounts: r.Range(2, 7), MaxDays: r.Range(2, 9), BaseDay: 737000 + r.Intn(1500), SpanDays: Pick(r, []int{5, 40, 100, 400}),
+			Prices: true, Valuation: Pick(r, []string{"CHF", "USD"}), ManyDecimals: r.Chance(1, 3), DropPrices: r.Chance(1, 12), ChainPrices: r.Chance(1, 3), DupPrices: true}
+	}, func(r *RNG, j *Journal, val string) BalFlags {
+		f := GenBalFlags(r, j, val, BalGenOpts{Valued: true, NoFilters: true})
+		accounts, _ := journalNames(j)
+		if len(f.Map) == 0 && r.Chance(1, 2) {
+			f.Map = []MapRuleF{{Level: r.Range(1, 2)}}
+			if r.Chance(1, 3) {
+				f.Map[0].Suffix = 1
+			}
+		}
+		if len(f.Show) == 0 && r.Chance(1, 3) {
+			f.Show = []string{Pick(r, []string{"^Assets", "^Liabilities", "Assets|Liabilities", genPattern(r, accounts)})}
+		}
+		if r.Chance(1, 6) {
+			f.Acc = []string{genPattern(r, accounts)}
+		}
+		f.CSV, f.Thousands = false, false
+		f.Digits = 10
+		f.Val = val
+		return f
+	})
+	eps := big.NewRat(1, 100000000)
+	for _, bc := range cases {
+		bc := bc
+		c.Evals++
+		impl := bc.implOutcome()
+		in := bc.Input()
+		for _, t := range bc.Tags {
+			c.Tag(t)
+		}
+		c.Class("c03m/" + strings.Fields(impl)[0] + "/" + flagClass(bc.F) + "/n" + bucket(len(bc.J.Dirs)))
+		if bc.Idx < 2 {
+			c.Sample(map[string]any{"args": strings.Join(bc.F.Args(), " "), "journal": bc.Text, "stdout": bc.Stdout})
+		}
+		bt.Add(func(model string) {
+			if model == "unsupported" {
+				return
+			}
+			if !c.Compare("modes", bc.Idx, "balance", in, impl, modelOutcomeCanon(model)) {
+				f := &c.Findings[len(c.Findings)-1]
+				if strings.HasPrefix(model, "ok ") {
+					f.Model = clip(UnHex(strings.TrimPrefix(model, "ok ")))
+				}
+				f.Impl = clip(bc.Stdout + "\n" + bc.Stderr)
+			}
+		}, "balance", bc.F.Wire(today()), bc.J.Wire())
+		if bc.Code != 0 {
+			c.Tag("rejected")
+			continue
+		}
+		dates, rows, _ := parseTextReport(bc.Stdout)
+		if len(dates) == 0 {
+			continue
+		}
+		type key struct{ path, comm string }
+		shown := map[key][]string{}
+		anyLine := map[string][]string{}
+		for _, r := range rows {
+			shown[key{r.Path, r.Comm}] = r.Values
+			if _, ok := anyLine[r.Path]; !ok {
+				anyLine[r.Path] = r.Values
+			}
+		}
+		bt.Add(func(ans string) {
+			if ans == "bad-op" || ans == "" || ans == "panic" || ans == "empty-window" {
+				if ans == "empty-window" {
+					c.Tag("inverted-window")
+				}
+				return
+			}
+			for _, item := range strings.Fields(ans) {
+				parts := strings.Split(item, "|")
+				if len(parts) != len(dates)+2 {
+					c.Monitor("modes", bc.Idx, "columns_agree", in, false, fmt.Sprintf("row %s: the model has %d columns, the report %d", parts[0], len(parts)-2, len(dates)))
+					continue
+				}
+				acc, comm := parts[0], parts[1]
+				var vals []string
+				pred := "mapped_row_is_mark_to_market"
+				if comm == "-" {
+					vals = anyLine[acc]
+					if len(bc.F.Map) == 0 && len(bc.F.Remap) == 0 && len(bc.F.Acc) == 0 {
+						pred = "row_is_mark_to_market"
+					}
+				} else {
+					vals = shown[key{acc, comm}]
+					pred = "commodity_line_is_mark_to_market"
+					c.Tag("show-line")
+				}
+				for k, cell := range parts[2:] {
+					f := strings.Split(cell, ":")
+					if len(f) != 3 {
+						continue
+					}
+					sv := ""
+					if k < len(vals) {
+						sv = vals[k]
+					}
+					if f[0] == "none" || f[1] == "none" {
+						c.Monitor("modes", bc.Idx, "missing_price_is_error", in, false, fmt.Sprintf("row %s %s column %s: no price exists but the report shows %q", acc, comm, dates[k], sv))
+						continue
+					}
+					mD, _ := ratOf(f[0])
+					mF, _ := ratOf(f[1])
+					var steps int64
+					fmt.Sscan(f[2], &steps)
+					bound := new(big.Rat).Mul(eps, big.NewRat(steps, 1))
+					s, ok := ratOf(sv)
+					if !ok {
+						c.Monitor("modes", bc.Idx, "cell_is_number", in, false, "cell "+sv)
+						continue
+					}
+					want := new(big.Rat).Sub(mD, mF)
+					dev := new(big.Rat).Abs(new(big.Rat).Sub(s, want))
+					if bc.F.Diff {
+						c.Tag("diff-cell")
+					}
+					if want.Sign() != 0 {
+						c.Tag("modes-nonzero")
+					}
+					c.Monitor("modes", bc.Idx, pred, in, dev.Cmp(bound) <= 0,
+						fmt.Sprintf("row %s %s column %s: shown %s, exact value at the period end %s, at the eve %s, steps %d", acc, comm, dates[k], s.FloatString(10), mD.FloatString(10), mF.FloatString(10), steps))
+				}
+			}
+		}, "c03rows", bc.F.Wire(today()), bc.J.Wire())
 	}
 }
